@@ -151,6 +151,7 @@ class Run:
                 "known_findings_reported": sorted(seen_known),
                 "not_decided": self.not_decided,
                 "analysis_broken": self.broken,
+                "selftest_seeded_changes": getattr(self, "selftest", None),
             },
             "assumptions": self.assumptions,
             "wall_s": round(wall, 3),
